@@ -54,6 +54,13 @@ CLAIMS = {
         note=TB + 'Claim limited to the lexer. Parser, module loader and analyser termination/totality are NOT under contract (recursive descent over unique_ptr trees is outside the lowering); '
              'the keyword-table lookup is a trusted library model.',
         ref='DESIGN.md §4 C13'),
+    'C14': dict(
+        text='Kernel only: full-domain proof (every TokenType value, and every ordered pair of them) that the Pratt binding-power table realises the documented precedence ladder of docs/grammar.md: '
+             'exactly the documented operators have a binding, binary levels are left-associative (lbp < rbp), a tighter operator on the right is absorbed by the right operand and an equal or looser one ends it, '
+             'operators of one level share one binding, every binary operator binds looser than prefix operators and every postfix form binds at least as tight.',
+        note=TB + 'The claim is limited to the table and the prefix constant. That parsePrattExpression applies the table as a Pratt loop should, statement dispatch, the type-ahead heuristic, annotation prefixes and the '
+             'render-then-parse round trip are NOT under contract (recursive descent over unique_ptr trees is outside the lowering).',
+        ref='DESIGN.md §4 C14'),
     'C15': dict(
         text='Proof that the token scanToken returns is located at the TRUE position (ghost line/column maintained only by the two byte-consuming primitives, by the definition of a 1-based position) '
              'of its first character, that its text is exactly the bytes consumed for it (slice identity for scanned tokens, byte-for-byte with a ghost index for literal-valued ones), that the '
